@@ -530,6 +530,55 @@ pub fn suite_raw(ctx: &mut Ctx) {
         check_raw(ctx, &c, &out, &req);
         ctx.count("raw.echo_cases");
     }
+    // implementation only: large DISJOINT middles (cheap for every algorithm) of unequal lengths between shared ends, full
+    // ranges and sub-ranges with differing starts -- beyond any table / work size at which one algorithm might hand over to
+    // another; the raw stream must still be a valid, gap-free script (and minimal for Myers / LCS: everything but the ends changes)
+    let sizes: &[(usize, usize)] = if ctx.tier == Tier::Quick { &[(1100, 1030), (4200, 4100), (6000, 6003)] } else { &[(1100, 1030), (3300, 3400), (4200, 4100), (6000, 6003), (10_001, 9_000)] };
+    for &(mo, mn) in sizes {
+        for (h, t) in [(3usize, 3usize), (0, 2), (2, 0)] {
+            for alg in ALGS {
+                if mo > 7000 && alg != Algorithm::Lcs {
+                    continue;
+                }
+                if !ctx.take() {
+                    continue;
+                }
+                let old: Vec<u32> = (0..h as u32).map(|i| 10 + i).chain((0..mo as u32).map(|i| 1_000_000 + i)).chain((0..t as u32).map(|i| 50 + i)).collect();
+                let new: Vec<u32> = (0..h as u32).map(|i| 10 + i).chain((0..mn as u32).map(|i| 2_000_000 + i)).chain((0..t as u32).map(|i| 50 + i)).collect();
+                let mut c = Case::full(alg, &old, &new);
+                if (h + t) % 2 == 1 {
+                    c.o_off = 4;
+                    c.n_off = 9;
+                    c.os += 4;
+                    c.oe += 4;
+                    c.ns += 9;
+                    c.ne += 9;
+                }
+                let req = format!("diff {} none - - 1 0 | <{} shared, {} distinct, {} shared> | <{} shared, {} other distinct, {} shared> | {} {} {} {}", alg_name(alg), h, mo, t, h, mn, t, c.os, c.oe, c.ns, c.ne);
+                let out = run_case(&c);
+                ctx.count("raw.big_disjoint_middle_cases");
+                if out.status != Status::Ok {
+                    ctx.violation("C01", &req, format!("the call did not return Ok: {:?}", out.status));
+                    continue;
+                }
+                if let Err(e) = oracle::finish_once_last(&out.trace) {
+                    ctx.violation("C01", &req, e);
+                }
+                let calls = oracle::strip_finish(&out.trace);
+                if let Err(e) = oracle::walk(&c.old, &c.new, c.o_off, c.n_off, ranges(&c), &calls, false) {
+                    ctx.violation("C01", &req, e);
+                    continue;
+                }
+                if let Err(e) = oracle::carried_run_relative(ranges(&c), &calls) {
+                    ctx.violation("C01", &req, e);
+                }
+                let (d, i, e) = oracle::cost(&calls);
+                if alg != Algorithm::Patience && (d + i != mo + mn || e != h + t) {
+                    ctx.violation("C03", &req, format!("deleted+inserted = {} but N+M-2L = {}", d + i, mo + mn));
+                }
+            }
+        }
+    }
 }
 
 /* ------------------------------------------------------------------------------------------ */
